@@ -366,10 +366,30 @@ def run_tu(a):
     return idx, res
 
 
+FLOAT_H = r'''
+#include <float.h>
+#include <stdio.h>
+#define VI(M) printf(#M " %lld\n", (long long)(M))
+#define VF(M) printf(#M " %La size=%d\n", (long double)(M), (int)sizeof(M))
+int main(void) {
+  VI(FLT_RADIX); VI(FLT_MANT_DIG); VI(DBL_MANT_DIG); VI(LDBL_MANT_DIG); VI(FLT_DIG); VI(DBL_DIG); VI(LDBL_DIG); VI(FLT_MIN_EXP); VI(DBL_MIN_EXP); VI(LDBL_MIN_EXP); VI(FLT_MAX_EXP); VI(DBL_MAX_EXP); VI(LDBL_MAX_EXP);
+  VI(FLT_MIN_10_EXP); VI(DBL_MIN_10_EXP); VI(LDBL_MIN_10_EXP); VI(FLT_MAX_10_EXP); VI(DBL_MAX_10_EXP); VI(LDBL_MAX_10_EXP); VI(DECIMAL_DIG); VI(FLT_EVAL_METHOD); VI(FLT_ROUNDS);
+  VI(FLT_DECIMAL_DIG); VI(DBL_DECIMAL_DIG); VI(LDBL_DECIMAL_DIG); VI(FLT_HAS_SUBNORM); VI(DBL_HAS_SUBNORM); VI(LDBL_HAS_SUBNORM);
+  VF(FLT_MAX); VF(DBL_MAX); VF(LDBL_MAX); VF(FLT_MIN); VF(DBL_MIN); VF(LDBL_MIN); VF(FLT_EPSILON); VF(DBL_EPSILON); VF(LDBL_EPSILON); VF(FLT_TRUE_MIN); VF(DBL_TRUE_MIN); VF(LDBL_TRUE_MIN);
+  /* the characteristics hold for the arithmetic the compiler emits */
+  volatile float fe = FLT_EPSILON; volatile double de = DBL_EPSILON; volatile long double le = LDBL_EPSILON, lmax = LDBL_MAX, lmin = LDBL_TRUE_MIN;
+  VI((float)(1.0f + fe) != 1.0f); VI((float)(1.0f + fe / 2) == 1.0f); VI(1.0 + de != 1.0); VI(1.0 + de / 2 == 1.0); VI(1.0L + le != 1.0L); VI(1.0L + le / 2 == 1.0L); VI(lmax * 2 > lmax); VI(lmax + lmax / 1e19L == lmax); VI(lmin / 2 == 0); VI(lmin > 0);
+  return 0;
+}
+'''
+
+
 def run(ctx):
     cc = ctx.build('plain')
     work = ctx.tmpdir('c02')
     rng = ctx.rng
+    # <float.h> must describe the three formats the emitted arithmetic really uses
+    core.header_probe(ctx, cc, work, 'float_h', FLOAT_H, 'C02|float.h|%s')
     T = tables(rng)
     comp_c = os.path.join(work, 'vals.c')
     open(comp_c, 'w').write(companion(T))
